@@ -2,6 +2,7 @@ import ScenicModel.Model.Replay
 import ScenicModel.Gen.Divergence
 import Mathlib.Tactic.Linarith
 import Mathlib.Tactic.NormNum
+import Mathlib.Tactic.Ring
 import Mathlib.Algebra.Order.Field.Rat
 
 /-! C18 (part 3): divergence detection is symmetric. -/
@@ -47,5 +48,91 @@ theorem signed_difference_misses_negative :
 example : scalarDiverged true (1/2) 10 3 = true ∧ scalarDiverged true (1/2) 3 10 = true
     ∧ scalarDiverged true (1/2) 3 (13/4) = false := by
   unfold scalarDiverged; norm_num
+
+
+/-! ### vector branch -/
+
+theorem foldl_sq (v : List Rat) (a : Rat) :
+    v.foldl (fun acc x => acc + x * x) a = a + normSq v := by
+  induction v generalizing a with
+  | nil => simp [normSq]
+  | cons x v ih =>
+    simp only [List.foldl_cons, normSq]
+    rw [ih, ih (0 + x * x)]
+    ring
+
+theorem normSq_cons (x : Rat) (v : List Rat) : normSq (x :: v) = x * x + normSq v := by
+  simp only [normSq, List.foldl_cons]
+  rw [foldl_sq]
+  simp [normSq]
+
+theorem normSq_nonneg (v : List Rat) : 0 ≤ normSq v := by
+  induction v with
+  | nil => simp [normSq]
+  | cons x v ih => rw [normSq_cons]; have := mul_self_nonneg x; linarith
+
+/-- the squared distance is zero only between equal vectors -/
+theorem normSq_sub_eq_zero (a e : List Rat) (hlen : a.length = e.length)
+    (h : normSq (List.zipWith (· - ·) a e) = 0) : a = e := by
+  induction a generalizing e with
+  | nil => cases e with
+    | nil => rfl
+    | cons y e => simp at hlen
+  | cons x a ih => cases e with
+    | nil => simp at hlen
+    | cons y e =>
+      simp only [List.zipWith_cons_cons, normSq_cons] at h
+      have h1 := mul_self_nonneg (x - y)
+      have h2 := normSq_nonneg (List.zipWith (· - ·) a e)
+      have hx : (x - y) * (x - y) = 0 := by linarith
+      have hr : normSq (List.zipWith (· - ·) a e) = 0 := by linarith
+      have hxy : x = y := by
+        have := mul_self_eq_zero.mp hx
+        linarith
+      rw [hxy, ih e (by simpa using hlen) hr]
+
+/-- **Vector divergence.** A vector-valued dynamic property is reported divergent exactly when its
+    (squared) distance from the recording exceeds the (squared) tolerance. -/
+theorem vector_divergence_iff (tol : Rat) (e a : List Rat) (hlen : a.length = e.length) :
+    vectorDiverged tol e a = true ↔ normSq (List.zipWith (· - ·) a e) > tol * tol := by
+  unfold vectorDiverged
+  simp only
+  by_cases hz : normSq (List.zipWith (· - ·) a e) = 0
+  · have hae := normSq_sub_eq_zero a e hlen hz
+    have := mul_self_nonneg tol
+    simp only [hz, ne_eq, not_true_eq_false, if_false]
+    simp only [hae, not_true_eq_false, decide_false, gt_iff_lt]
+    constructor
+    · intro h; exact absurd h (by simp)
+    · intro h; linarith
+  · simp only [ne_eq, hz, not_false_eq_true, if_true, decide_eq_true_eq]
+
+theorem normSq_sub_comm (a e : List Rat) :
+    normSq (List.zipWith (· - ·) a e) = normSq (List.zipWith (· - ·) e a) := by
+  induction a generalizing e with
+  | nil => cases e <;> simp [normSq]
+  | cons x a ih => cases e with
+    | nil => simp [normSq]
+    | cons y e =>
+      simp only [List.zipWith_cons_cons, normSq_cons, ih e]
+      ring
+
+/-- … in either direction: swapping recording and actual value gives the same verdict -/
+theorem vector_divergence_symmetric (tol : Rat) (e a : List Rat) :
+    vectorDiverged tol e a = vectorDiverged tol a e := by
+  unfold vectorDiverged
+  simp only [normSq_sub_comm a e]
+  have : decide (a ≠ e) = decide (e ≠ a) := by
+    by_cases h : a = e
+    · subst h; rfl
+    · have h' : e ≠ a := fun h' => h h'.symm
+      simp [h, h']
+  rw [this]
+
+example : vectorDiverged (1/2) [0, 0, 0] [3/5, 0, 0] = true
+    ∧ vectorDiverged (1/2) [0, 0, 0] [-3/5, 0, 0] = true
+    ∧ vectorDiverged (1/2) [0, 0, 0] [3/10, -3/10, 0] = false
+    ∧ vectorDiverged 0 [1, 2, 3] [1, 2, 3] = false := by
+  unfold vectorDiverged normSq; norm_num
 
 end Scenic.C18
